@@ -138,3 +138,10 @@ _p('C02', ['r_emitorder', 'r_edges', 'r_visit', 'r_norec'],
    'follows every id-typed field (R-EDGES) and every instruction operand (R-VISIT), so whatever a kept item refers to is '
    'kept and therefore indexed; no recursion is reachable from emit (R-NOREC).',
    not_decided='acceptance of the output by an independent validator; panics behind API misuse (ids of deleted items)')
+
+_p('C07', ['r_sweep', 'r_edges'],
+   'Precision of the GC: gc::run is evaluated with nothing inlined and must sweep every kind tracked by `Used` against the '
+   'used set of that kind, imports by the kind they import; the helper `unused` must return exactly the complement; '
+   'Used::new may root only the documented categories and each worklist step may retain only what the popped entity '
+   'refers to (no extra edges), apart from the documented first-memory residue after the fixpoint.',
+   not_decided='idempotence as such (follows from closure + complement; not executed)')
